@@ -335,9 +335,15 @@ pub fn run(ctx: &Ctx) -> Finish {
             for e in 0..=6u8 {
                 check_case(l, &Case::Pow { a: *a, e });
             }
+            // incl. non-zero scalars far below machine epsilon (powers of two: products stay exact)
             for c in [-2.0, -0.5, 0.5, 3.0, 1.0, -1.0] {
                 check_case(l, &Case::Scale { a: *a, c });
                 check_case(l, &Case::Shift { a: *a, c });
+            }
+            // non-zero scalars far below machine epsilon (powers of two: the products stay exact;
+            // shifting by them would not be exact, so they are used for scaling only)
+            for c in [2f64.powi(-60), -(2f64.powi(-60))] {
+                check_case(l, &Case::Scale { a: *a, c });
             }
             check_case(l, &Case::Shift { a: *a, c: 0.0 });
         }
@@ -372,6 +378,11 @@ pub fn run(ctx: &Ctx) -> Finish {
     if !t {
         fs = fs.into_iter().step_by(9).collect();
     }
+    // tiny non-zero coefficients
+    let tiny = 2f64.powi(-60);
+    fs.push(FnRep::Lin { terms: vec![(1, tiny)], c: 0.0 });
+    fs.push(FnRep::Poly { terms: vec![(vec![1, 2], -tiny)] });
+    fs.push(FnRep::Quad { entries: vec![(1, 1, tiny)], lin: None });
     ctx.note("evaluate_bound_functions", json!(fs.len()));
     let base_ivs = intervals();
     let opts: Vec<Option<Iv>> = std::iter::once(None).chain(base_ivs.iter().map(|i| Some(*i))).collect();
